@@ -295,6 +295,10 @@ func replay(o *hlib.Out, path string) {
 				continue
 			}
 			bigRun(o, sd, v)
+		case "swp":
+			if !swpReplay(o, ws) {
+				o.Case(l, "badreplay")
+			}
 		case "nst":
 			if len(ws) < 5 {
 				o.Case(l, "badreplay")
@@ -449,6 +453,9 @@ func main() {
 	nestedCases(o, r, pool, pick(9, 30))
 	// … and split over the members of a multi-member gzip (field reads that straddle a member boundary)
 	multiGzipCases(o, r, pool, pick(4, 1), pick(1, 3))
+
+	// 3b. (inflated size x compressibility class x method / level) sweep of one member
+	swpCases(o, r.Fork(), th)
 
 	// 4. multi-MiB files on disk through the CLI's open stack (read-ahead cache)
 	for v := 0; v < pick(6, 18); v++ {
